@@ -63,6 +63,10 @@ enum L2Class {
     /// foreign PAN, link-layer broadcast destination 0xffff
     OtherPanBroadcast,
     BroadcastPan,
+    /// no destination PAN id and address at all (source addressing only), source in a foreign PAN / in ours: such
+    /// frames are for a PAN coordinator, which the node is not
+    NoDstForeignSrcPan,
+    NoDstOwnSrcPan,
 }
 
 enum Sk {
@@ -255,10 +259,19 @@ impl<'a> Inj<'a> {
                     L2Class::OtherPan => (0x1234, Addr154::Ext(if self.hw_changed { V_LL8_2 } else { V_LL8 })),
                     L2Class::OtherPanBroadcast => (0x1234, Addr154::Short([0xff, 0xff])),
                     L2Class::BroadcastPan => (0xffff, Addr154::Ext(if self.hw_changed { V_LL8_2 } else { V_LL8 })),
+                    L2Class::NoDstForeignSrcPan => (0x1234, Addr154::Absent),
+                    L2Class::NoDstOwnSrcPan => (PAN, Addr154::Absent),
                 };
                 self.seq154 = self.seq154.wrapping_add(1);
                 let src = Addr154::Ext(P_LL8);
                 let comp = enc_iphc(&ip, &src, &dst, &IphcOpts { tf: 3, sam: 0, dam: 0, hlim_inline: true, nhc_udp: false, udp_elide_checksum: false });
+                if dst == Addr154::Absent {
+                    let mut f = data_frame(self.seq154, pan, dst, src, comp);
+                    f.dst_pan = None;
+                    f.pan_comp = false;
+                    f.src_pan = Some(pan);
+                    return enc_154(&f);
+                }
                 enc_154(&data_frame(self.seq154, pan, dst, src, comp))
             }
         }
@@ -419,7 +432,7 @@ fn body(c: &mut Inj, thorough: bool) -> Result<(), Violation> {
         let l2 = match c.medium {
             Medium::Ip => L2Class::Own,
             Medium::Ethernet => *c.tape.pick(&[L2Class::Own, L2Class::Own, L2Class::OtherUnicast, L2Class::Broadcast, L2Class::Multicast]),
-            Medium::Ieee802154 => *c.tape.pick(&[L2Class::Own, L2Class::Own, L2Class::OtherUnicast, L2Class::Broadcast, L2Class::OtherPan, L2Class::BroadcastPan, L2Class::OtherPanBroadcast]),
+            Medium::Ieee802154 => *c.tape.pick(&[L2Class::Own, L2Class::Own, L2Class::OtherUnicast, L2Class::Broadcast, L2Class::OtherPan, L2Class::BroadcastPan, L2Class::OtherPanBroadcast, L2Class::NoDstForeignSrcPan, L2Class::NoDstOwnSrcPan]),
         };
         let (dc, sc, l2) = match forced {
             Some((d, _, _)) => (d, SrcClass::OnLink, L2Class::Own),
@@ -428,16 +441,19 @@ fn body(c: &mut Inj, thorough: bool) -> Result<(), Violation> {
         let dst = c.dst_addr(dc, v6);
         let src = c.src_addr(sc, v6);
         // ---- protocol and port relation
-        let proto = if forced.is_some() { 2 } else { c.tape.draw(8) };
+        let proto = if forced.is_some() { 2 } else { c.tape.draw(9) };
+        let mut ns_target: Option<[u8; 16]> = None;
         let mut udp_dport: Option<u16> = None;
         let mut quoted_sport: Option<u16> = None;
         let (l4p, l4, is_err, is_rst, what): (u8, Vec<u8>, bool, bool, &'static str) = match proto {
             0 | 1 => {
                 // (7002: the port the closed socket used to have; 0: what an unbound socket's endpoint reads)
-                let dport = *c.tape.pick(&[7000u16, 7001, 9999, 53, 7000, 0, 7002]);
+                let dport = *c.tape.pick(&[7000u16, 7001, 9999, 53, 7000, 0, 7002, 7003]);
                 udp_dport = Some(dport);
                 // (source port 0 is legal: "not used", RFC 768)
-                let sport = *c.tape.pick(&[4000u16, 4000, 0]);
+                // (53 from the configured DNS server and 5353 are what the node's DNS socket listens for - a UDP socket bound
+                // to the destination port still comes first)
+                let sport = *c.tape.pick(&[4000u16, 4000, 0, 53, 5353]);
                 (P_UDP, enc_udp(&src, &dst, sport, dport, b"injected datagram"), false, false, "udp")
             }
             2 | 3 => {
@@ -488,7 +504,40 @@ fn body(c: &mut Inj, thorough: bool) -> Result<(), Violation> {
                 let (typ, p) = if v6 { (1u8, P_ICMP6) } else { (3u8, P_ICMP) };
                 (p, enc_icmp(v6, &src, &dst, typ, 3, [0, 0, 0, 0], &q), true, false, "icmp-error")
             }
-            6 => {
+            8 if v6 => {
+                // neighbour solicitation (hop limit 255, see below) for one of: the node's address; a foreign address that
+                // shares the low 24 bits with it, and with them the solicited-node group; another on-link address
+                let mut t = c.v6;
+                match c.tape.draw(3) {
+                    0 => {}
+                    1 => {
+                        t[0] = 0x20;
+                        t[1] = 0x01;
+                        t[2] = 0x0d;
+                        t[3] = 0xb8;
+                    }
+                    _ => t[15] = 9,
+                }
+                ns_target = Some(t);
+                let mut body = t.to_vec();
+                if !matches!(sc, SrcClass::Unspecified) {
+                    match c.medium {
+                        Medium::Ethernet => {
+                            body.extend_from_slice(&[1, 1]);
+                            body.extend_from_slice(&P_MAC);
+                        }
+                        Medium::Ieee802154 => {
+                            body.extend_from_slice(&[1, 2]);
+                            body.extend_from_slice(&P_LL8);
+                            body.extend_from_slice(&[0; 6]);
+                        }
+                        Medium::Ip => {}
+                    }
+                }
+                c.stats.inc("inj.neighbour-solicitations");
+                (P_ICMP6, enc_icmp(true, &src, &dst, 135, 0, [0, 0, 0, 0], &body), false, false, "neighbour-solicitation")
+            }
+            6 | 8 => {
                 // unknown transport protocol
                 (253, b"unknown protocol payload".to_vec(), false, false, "proto253")
             }
@@ -517,14 +566,32 @@ fn body(c: &mut Inj, thorough: bool) -> Result<(), Violation> {
         }
         let (l4p_ip, l4_ip) = match hbh {
             Some(t) => {
-                let mut b = vec![l4p, 0, t, 4, 0, 0, 0, 0];
+                // the header is 8, 16 or 24 octets long; the longer ones carry option data with high-valued octets
+                let mut b = match c.tape.draw(3) {
+                    0 => vec![l4p, 0, t, 4, 0, 0, 0, 0],
+                    1 => {
+                        let mut b = vec![l4p, 1, t, 12];
+                        for k in 0..12u8 {
+                            b.push(0x80 | (k.wrapping_mul(37) ^ t));
+                        }
+                        b
+                    }
+                    _ => {
+                        // PadN first, then the unknown option
+                        let mut b = vec![l4p, 2, 1, 6, 0, 0, 0, 0, 0, 0, t, 12];
+                        for k in 0..12u8 {
+                            b.push(0xf0 ^ k);
+                        }
+                        b
+                    }
+                };
                 b.extend_from_slice(&l4);
                 c.stats.inc("inj.hop-by-hop-unknown-option");
                 (P_HBH, b)
             }
             None => (l4p, l4.clone()),
         };
-        let ip = enc_ip(&src, &dst, l4p_ip, 64, &l4_ip);
+        let ip = enc_ip(&src, &dst, l4p_ip, if ns_target.is_some() { 255 } else { 64 }, &l4_ip);
         // Ethernet + IPv4: sometimes the frame is an ARP request or reply for the node's address instead, sent to
         // the link-layer destination class drawn above (own, another station's, broadcast, multicast)
         let arp_frame: Option<Vec<u8>> = if c.medium == Medium::Ethernet && c.v4.is_some() && forced.is_none() && hbh.is_none() && c.tape.draw(12) == 0 {
@@ -560,7 +627,7 @@ fn body(c: &mut Inj, thorough: bool) -> Result<(), Violation> {
             (Medium::Ip, _) => true,
             (Medium::Ethernet, L2Class::OtherUnicast) => false,
             (Medium::Ethernet, _) => true,
-            (Medium::Ieee802154, L2Class::OtherPan) | (Medium::Ieee802154, L2Class::OtherPanBroadcast) => false,
+            (Medium::Ieee802154, L2Class::OtherPan) | (Medium::Ieee802154, L2Class::OtherPanBroadcast) | (Medium::Ieee802154, L2Class::NoDstForeignSrcPan) | (Medium::Ieee802154, L2Class::NoDstOwnSrcPan) => false,
             (Medium::Ieee802154, _) => true,
         };
         let l3_ours = match dc {
@@ -656,6 +723,25 @@ fn body(c: &mut Inj, thorough: bool) -> Result<(), Violation> {
         if !c.props.has("C11") {
             continue;
         }
+        // now and then the application closes the port-only UDP socket right after the frame - before reading what
+        // may have arrived - and binds it to the other of two ports: what it reads afterwards arrived for that port
+        if c.tape.draw(24) == 0 {
+            for i in 0..c.socks.len() {
+                if let Sk::Udp(h, port, None) = &c.socks[i] {
+                    if *port == 7000 || *port == 7003 {
+                        let (h, np) = (*h, if *port == 7000 { 7003u16 } else { 7000 });
+                        let so = c.node.sockets.get_mut::<udp::Socket>(h);
+                        guard("udp::close+bind", || {
+                            so.close();
+                            so.bind(np).unwrap();
+                        })?;
+                        c.socks[i] = Sk::Udp(h, np, None);
+                        c.stats.inc("inj.udp-socket-closed-and-rebound");
+                        break;
+                    }
+                }
+            }
+        }
         // every consequence of "::1 arriving from the network is accepted" is one finding
         let lo6 = v6 && dc == DstClass::Loopback;
         let sigfix = |s: String| -> String { if lo6 { "C11.ipv6-loopback-destination-accepted-from-the-network".to_string() } else { s } };
@@ -675,6 +761,14 @@ fn body(c: &mut Inj, thorough: bool) -> Result<(), Violation> {
             }
             if let Some(p) = out.first() {
                 return Err(viol("C11", "not-for-us", sigfix(format!("C11.foreign/answered/{}/dst={:?}/l2={:?}", what, dc, l2)), format!("a packet not addressed to the interface was answered: {} ; reply: {}", summary, p.summary())));
+            }
+        }
+        // 1b. a neighbour solicitation that asks for an address the interface does not have is not answered
+        if let Some(t) = ns_target {
+            if t != c.v6 {
+                if let Some(p) = out.iter().find(|p| matches!(&p.l4, Some(L4::Icmp6(i)) if i.typ == 136)) {
+                    return Err(viol("C11", "not-for-us", sigfix("C11.foreign/answered/neighbour-solicitation-for-a-foreign-target".to_string()), format!("a neighbour solicitation for {} - not an address of the interface - was answered: {} ; reply: {}", IpAddr::V6(t), summary, p.summary())));
+                }
             }
         }
         // 2. broadcast / multicast destination or non-unicast source: no RST, no ICMP error
